@@ -461,10 +461,10 @@ Proof.
 Qed.
 
 (* reply type check of _make_request *)
-Lemma accept_type v rt ty p val :
-  accept v rt ty p = Ok val -> (ty = FXP_STATUS /\ rt = None /\ val = VNone) \/ (rt = Some ty /\ ty <> FXP_STATUS).
+Lemma accept_old_type v rt ty p val :
+  accept_old v rt ty p = Ok val -> (ty = FXP_STATUS /\ rt = None /\ val = VNone) \/ (rt = Some ty /\ ty <> FXP_STATUS).
 Proof.
-  unfold accept. destruct (negb ((ty =? FXP_STATUS) || match rt with Some t => ty =? t | None => false end)) eqn:E; [discriminate|].
+  unfold accept_old. destruct (negb ((ty =? FXP_STATUS) || match rt with Some t => ty =? t | None => false end)) eqn:E; [discriminate|].
   destruct (ty =? FXP_STATUS) eqn:Es.
   - apply Z.eqb_eq in Es. destruct (status_decode v p) as [cr|]; [|discriminate].
     destruct (fst (fst cr) =? FX_OK); [|discriminate]. destruct rt; [discriminate|].
@@ -474,13 +474,28 @@ Proof.
     apply Z.eqb_eq in E. subst. reflexivity.
 Qed.
 
+Lemma accept_ok v rt ty p val : accept v rt ty p = Ok val -> accept_old v rt ty p = Ok val.
+Proof. unfold accept. destruct (accept_old v rt ty p) as [x|[|c|]]; intros H; try discriminate; exact H. Qed.
+
+Lemma accept_type v rt ty p val :
+  accept v rt ty p = Ok val -> (ty = FXP_STATUS /\ rt = None /\ val = VNone) \/ (rt = Some ty /\ ty <> FXP_STATUS).
+Proof. intros H. eapply accept_old_type. apply accept_ok. exact H. Qed.
+
 Lemma accept_wrong_type v rt ty p :
   ty <> FXP_STATUS -> rt <> Some ty -> accept v rt ty p = Err (ESftp FX_BAD_MESSAGE).
 Proof.
-  intros H1 H2. unfold accept. apply Z.eqb_neq in H1. rewrite H1. cbn [orb].
+  intros H1 H2. unfold accept, accept_old. apply Z.eqb_neq in H1. rewrite H1. cbn [orb].
   destruct rt as [t|]; [|reflexivity]. destruct (ty =? t) eqn:E; [|reflexivity].
   apply Z.eqb_eq in E. subst. contradiction H2. reflexivity.
 Qed.
+
+(* a malformed reply never reaches its caller as a decode error *)
+Lemma accept_no_decode_error v rt ty p : accept v rt ty p <> Err EDecode.
+Proof. unfold accept. destruct (accept_old v rt ty p) as [x|[|c|]]; discriminate. Qed.
+
+(* ... which the code before the fix did: a 2-byte FXP_ATTRS reply to a STAT request *)
+Lemma accept_old_leaks : exists v rt ty p, accept_old v rt ty p = Err EDecode.
+Proof. exists 3, (Some FXP_ATTRS), FXP_ATTRS, [0; 0]. vm_compute. reflexivity. Qed.
 
 (* ------------------------------------------------------------------------------------------ *)
 (* 8. server                                                                                    *)
@@ -1537,4 +1552,91 @@ Proof.
            | |- context [if ?c then _ else _] => destruct c
            end; intros H; inversion H; subst;
       left; cbn [In]; intros Hin; repeat (destruct Hin as [Hin|Hin]; [discriminate Hin|]); exact Hin.
+Qed.
+
+(* ------------------------------------------------------------------------------------------ *)
+(* 7b. every way a reply can fail to decode ends, for the caller, in an SFTPError                *)
+
+Definition sftp_or_decode (e : err) : Prop := e = EDecode \/ exists c, e = ESftp c.
+
+Lemma parse_err_sod e : parse_err e -> sftp_or_decode e.
+Proof. unfold parse_err, sftp_or_decode. intros [->|[->|[->| ->]]]; eauto. Qed.
+
+Lemma check_end_lt6_err {A} v (x : A) b e : check_end_lt6 v x b = Err e -> e = EDecode.
+Proof. unfold check_end_lt6. destruct (_ && _); intros H; inversion H; reflexivity. Qed.
+
+Lemma get_utf8_strings_err fuel : forall b e, get_utf8_strings fuel b = Err e -> sftp_or_decode e.
+Proof.
+  induction fuel as [|f IH]; intros b e H; destruct b as [|x b]; cbn [get_utf8_strings] in H; try discriminate.
+  - inversion H. left. reflexivity.
+  - destruct (get_string (x :: b)) as [[s r]|]; cbn [lift] in H; [|inversion H; left; reflexivity].
+    destruct (negb (utf8_valid s)); [inversion H; right; eauto|].
+    destruct (get_utf8_strings f r) as [l|e'] eqn:E; [discriminate|]. inversion H; subst. eapply IH; exact E.
+Qed.
+
+Lemma status_decode_err v b e : status_decode v b = Err e -> sftp_or_decode e.
+Proof.
+  unfold status_decode. destruct (get_u32 b) as [[code b1]|]; cbn [lift]; [|intros H; inversion H; left; reflexivity].
+  destruct b1 as [|x b1].
+  - destruct (code =? FX_UNKNOWN_PRINCIPAL).
+    + destruct (get_utf8_strings _ _) as [l|e'] eqn:E; [|intros H; inversion H; subst; eapply get_utf8_strings_err; exact E].
+      destruct (_ && _); intros H; inversion H. left. reflexivity.
+    + destruct (_ && _); intros H; inversion H. left. reflexivity.
+  - destruct (get_string (x :: b1)) as [[reason b2]|]; cbn [lift]; [|intros H; inversion H; left; reflexivity].
+    destruct (negb (utf8_valid reason)); [intros H; inversion H; right; eauto|].
+    destruct (get_string b2) as [[lang b3]|]; cbn [lift]; [|intros H; inversion H; left; reflexivity].
+    destruct (negb (ascii_valid lang)); [intros H; inversion H; right; eauto|].
+    destruct (code =? FX_UNKNOWN_PRINCIPAL).
+    + destruct (get_utf8_strings _ _) as [l|e'] eqn:E; [|intros H; inversion H; subst; eapply get_utf8_strings_err; exact E].
+      destruct (_ && _); intros H; inversion H. left. reflexivity.
+    + destruct (_ && _); intros H; inversion H. left. reflexivity.
+Qed.
+
+Lemma name_decode_err v b e : name_decode v b = Err e -> sftp_or_decode e.
+Proof.
+  unfold name_decode. destruct (get_string b) as [[f b1]|]; cbn [lift]; [|intros H; inversion H; left; reflexivity].
+  destruct (v =? 3).
+  - destruct (get_string b1) as [[l b2]|]; cbn [lift]; [|intros H; inversion H; left; reflexivity].
+    destruct (attrs_decode v b2) as [[a b3]|e'] eqn:E; [discriminate|].
+    intros H; inversion H; subst. apply parse_err_sod. eapply attrs_decode_err; exact E.
+  - destruct (attrs_decode v b1) as [[a b3]|e'] eqn:E; [discriminate|].
+    intros H; inversion H; subst. apply parse_err_sod. eapply attrs_decode_err; exact E.
+Qed.
+
+Lemma names_decode_err fuel v : forall count b e, names_decode fuel v count b = Err e -> sftp_or_decode e.
+Proof.
+  induction fuel as [|f IH]; intros count b e H; cbn [names_decode] in H; destruct (count <=? 0); try discriminate.
+  - inversion H. left. reflexivity.
+  - destruct (name_decode v b) as [[n b1]|e1] eqn:E1; [|inversion H; subst; eapply name_decode_err; exact E1].
+    destruct (names_decode f v (count - 1) b1) as [[l b2]|e2] eqn:E2; [discriminate|].
+    inversion H; subst. eapply IH; exact E2.
+Qed.
+
+Lemma accept_old_err v rt ty p e : accept_old v rt ty p = Err e -> sftp_or_decode e.
+Proof.
+  unfold accept_old. destruct (negb _); [intros H; inversion H; right; eauto|].
+  destruct (ty =? FXP_STATUS).
+  - destruct (status_decode v p) as [cr|e'] eqn:E; [|intros H; inversion H; subst; eapply status_decode_err; exact E].
+    destruct (fst (fst cr) =? FX_OK); [destruct rt; intros H; inversion H; right; eauto|intros H; inversion H; right; eauto].
+  - destruct (ty =? FXP_HANDLE).
+    { destruct (get_string p) as [[h b]|]; cbn [lift]; [|intros H; inversion H; left; reflexivity].
+      intros H. left. eapply check_end_lt6_err; exact H. }
+    destruct (ty =? FXP_DATA).
+    { destruct (get_string p) as [[d b]|]; cbn [lift]; [|intros H; inversion H; left; reflexivity].
+      unfold at_end_flag. destruct b as [|x b]; [|destruct (6 <=? v)]; intros H; left; eapply check_end_lt6_err; exact H. }
+    destruct (ty =? FXP_NAME).
+    { destruct (get_u32 p) as [[count b]|]; cbn [lift]; [|intros H; inversion H; left; reflexivity].
+      destruct (names_decode _ v count b) as [[l b1]|e'] eqn:E; [|intros H; inversion H; subst; eapply names_decode_err; exact E].
+      unfold at_end_flag. destruct b1 as [|x b1]; [|destruct (6 <=? v)]; intros H; left; eapply check_end_lt6_err; exact H. }
+    destruct (ty =? FXP_ATTRS).
+    { destruct (attrs_decode v p) as [[a b]|e'] eqn:E; [|intros H; inversion H; subst; apply parse_err_sod; eapply attrs_decode_err; exact E].
+      intros H. left. eapply check_end_lt6_err; exact H. }
+    discriminate.
+Qed.
+
+(* whatever arrives, a caller that is not given a value is given an SFTPError (never a bare decode error) *)
+Lemma accept_err_is_sftp v rt ty p e : accept v rt ty p = Err e -> exists c, e = ESftp c.
+Proof.
+  unfold accept. destruct (accept_old v rt ty p) as [x|e'] eqn:E; [discriminate|].
+  destruct (accept_old_err _ _ _ _ _ E) as [->|[c ->]]; intros H; inversion H; eauto.
 Qed.
